@@ -250,11 +250,19 @@ def rule_T4(ctx):
                   "this call is not dominated by a test of self.iteration against self.num_iterations although the sibling call is: ConditionalSMCSampler._resample_swarm reads constrained_path[iteration + 1], which does not exist after the last data point (IndexError with one data point whenever resampling triggers)", construct=f.qualname, stmt="unguarded _resample_swarm()" if cs.index(c) == 0 else "_resample_swarm() in loop")
     # the retained path has one entry per data point plus the leading None
     g = prog.fn("ConditionalSMCSampler._get_constrained_path")
-    inits = [n for n in ast.walk(g.node) if isinstance(n, ast.Assign) and u(n.targets[0]) == "constrained_path" and isinstance(n.value, ast.List)]
-    apps = calls(g.node, name="constrained_path.append")
-    loops = [n for n in ast.walk(g.node) if isinstance(n, ast.For) and u(n.iter) == "self.data_points"]
-    pm = parents(g.node)
-    ok = len(inits) == 1 and len(inits[0].value.elts) == 1 and len(apps) == 1 and len(loops) == 1 and not guards_of(apps[0], pm) and any(apps[0] in list(ast.walk(l)) for l in loops)
+    # decided on the value the function returns (however the pass is written: in place, through a helper or a generator):
+    # a list whose first element is None, followed by one element per element of self.data_points, none of them conditional
+    from .. import termflow as _tf
+    from ..formula import extract
+
+    res = extract(prog, g, opaque_self_methods={"_get_log_w", "_propose_particle"}, copy_is_identity=False).result
+    ok = isinstance(res, _tf.AList) and len(res.items) == 1 + _tf.K_ELEMS
+    if ok:
+        first = res.items[0]
+        ok = first is None or (isinstance(first, _tf.Poly) and first.as_atom() == ("const", "None"))
+        doms = [d for d in res.doms]
+        ok = ok and len(doms) == 1 and _tf.show_key(doms[0]).endswith(".data_points") and not any(_tf._maybe_absent(x) for x in res.items[1:])
+        ok = ok and not any(isinstance(x, _tf.Poly) and x.as_atom() is not None and x.as_atom()[0] == "star" for x in res.items)
     ctx.check(ok, "T4", "_get_constrained_path: path = [None] + one particle per data point (len = num_iterations + 1)", g.where(), "the retained path does not have exactly one entry per data point after the leading placeholder", construct=g.qualname, stmt="constrained_path construction")
     subs = []
     for m in ("_init_swarm", "_resample_swarm", "_update_swarm"):
